@@ -27,14 +27,20 @@ static const double DMIN = std::numeric_limits<double>::min();
 static const double INF = std::numeric_limits<double>::infinity();
 
 // ---------------------------------------------------------------------------- tolerances (see checks/C19.py)
-// value:    K_V * eps * sum (n+1)|term|           gradient: K_G * eps * sum (n+2)|gradient term|
-static const double K_V = 64, K_G = 32;
+// value:    K_V * eps * sum [(n+1)|term| + |d term/d theta|]      gradient: K_G * eps * sum (n+2)|gradient term|
+// Every K is a base constant times g_kfac = max(1, sqrt((N+1)/16)), N = degree of the case: for single high-degree terms the
+// double Clenshaw summation of the library is observed (not a defect) to lose a little more than n*eps (thorough: 60 eps*scale
+// at N = 360, 9 at N <= 8); the factor keeps the low-degree checks sharp.
+static double g_kfac = 1;
+static inline void set_degree_factor(int N) { g_kfac = std::max(1.0, std::sqrt((N + 1) / 16.0)); }
+#define K_V (24.0 * g_kfac)
+#define K_G (16.0 * g_kfac)
 // circle vs direct evaluation of the library itself (two library results, both with the error above)
-static const double K_C = 64;
+#define K_C (24.0 * g_kfac)
 // models: same measure, one more rounding layer (geodetic -> geocentric, time interpolation, rotation)
-static const double K_M = 16;
+#define K_M (16.0 * g_kfac)
 // disturbing-potential quantities (T, delta, geoid height, anomaly): difference of two fields, J_n, flattening from J2, rotations
-static const double K_T = 64;
+#define K_T (64.0 * g_kfac)
 
 static inline double dq(Q v) { return (double)v; }
 static inline double absd(Q v) { return (double)fabsq(v); }
